@@ -93,20 +93,20 @@ def mulpLane (m : Mat) (p : Nat) (v : List Nat) : Option (List Nat) :=
   if v.length ≠ m.length then none                       -- assert!(v.len() == self.size)
   else m.mapM (rowLane (fun j => v.getD j 0) p)
 
-/-- `norm()`: `max(pos, neg)` over the rows; the `i64` sums cannot overflow (at most 2^16 entries of
-absolute value at most 2^15 per group ... per input row there is no bound on the number of entries:
-checked all the same) -/
-def rowNorm (r : Row) : Option Int := do
-  let pos := ((r.filter (fun je => je.2 = 1)).length : Int)
-  let neg := ((r.filter (fun je => je.2 = -1)).length : Int)
-  let xs := r.filter (fun je => je.2 ≠ 1 ∧ je.2 ≠ -1)
-  let (pos, neg) ← xs.foldlM (fun (pn : Int × Int) je =>
-    if je.2 > 0 then (chkI64 (pn.1 + je.2)).map (fun a => (a, pn.2))
-    else (chkI64 (pn.2 - je.2)).map (fun b => (pn.1, b))) (pos, neg)
-  some (max pos neg)
+/-- sum of `f` over the entries of a row selected by `sel` -/
+def sumSel (sel : Int → Bool) (f : Nat × Int → Int) : Row → Int
+  | [] => 0
+  | je :: r => (if sel je.2 then f je else 0) + sumSel sel f r
 
-def norm (m : Mat) : Option Nat :=
-  m.foldlM (fun (acc : Nat) r => (rowNorm r).map (fun x => max acc x.toNat)) 0
+/-- `pos` of `norm()` for one row: the number of `+1` entries plus the sum of the other positive
+coefficients -/
+def posW (r : Row) : Int := sumSel (fun _ => true) (fun je => if 0 < je.2 then je.2 else 0) r
+/-- `neg` of `norm()` for one row -/
+def negW (r : Row) : Int := sumSel (fun _ => true) (fun je => if je.2 < 0 then -je.2 else 0) r
+
+/-- `norm()`: the maximum of `max(pos, neg)` over the rows. The `i64` sums cannot overflow: the CSR
+offsets are `u32`, so a matrix has fewer than 2^32 entries, each of absolute value at most 2^15. -/
+def norm (m : Mat) : Nat := m.foldl (fun acc r => max acc (max (posW r) (negW r)).toNat) 0
 
 /-- the loop of `select_crtprimes`: `while moduli.len() < want { if isprime64(p) { push }; p -= 30 }` -/
 def primesLoop (isprime : Nat → Option Bool) (want : Nat) : Nat → Nat → List Nat → Option (List Nat)
@@ -123,8 +123,8 @@ def primesLoop (isprime : Nat → Option Bool) (want : Nat) : Nat → Nat → Li
 def primeFuel : Nat := 4000000
 
 /-- `select_crtprimes()` -/
-def selectPrimes (isprime : Nat → Option Bool) (m : Mat) : Option (List Nat) := do
-  let nm ← norm m
+def selectPrimes (isprime : Nat → Option Bool) (m : Mat) : Option (List Nat) :=
+  let nm := norm m
   if nm = 0 then none                                    -- (1 << 63) / norm
   else
     let bound := I63.toNat / nm
